@@ -6,6 +6,7 @@ import OsyrisModel
 import OsyrisModel.Generated.Constants
 import OsyrisModel.Reference.Constants
 import OsyrisProofs.C02
+import OsyrisProofs.Lemmas.Sym
 
 namespace Osyris.C08
 open Osyris Osyris.C02
@@ -104,5 +105,120 @@ theorem C08_constants_each (c : Const) (h : c ∈ Generated.constants) : Referen
   unfold Reference.tableOk at this
   simp only [Bool.and_eq_true, List.all_eq_true] at this
   exact this.1 c h
+
+
+/-! ### Equivalent spellings (`osyris.units` on unit expressions)
+
+`UExpr.eval` is what the correspondence check compares `osyris.units(spelling)` with, for every
+spelling of a tree.  The theorems below say that the rewrites a spelling may apply to the tree itself
+(reordering the factors, regrouping a product, writing a quotient as a product with a power `-1`,
+distributing a power over a product) do not change the unit — literally: same factor, same
+dimension vector, same symbolic container (pint's `Unit.__eq__`). -/
+
+namespace Spelling
+
+/-- atoms as `osyris.units(name)` delivers them: container in normal form, full dimension vector -/
+def WF : UExpr → Prop
+  | .atom u => Sym.NF u.sym ∧ u.dim.length = ndims
+  | .mul a b => WF a ∧ WF b
+  | .div a b => WF a ∧ WF b
+  | .pow a _ => WF a
+
+theorem dim_add_length {a b : Dim} (ha : a.length = ndims) (hb : b.length = ndims) : (Dim.add a b).length = ndims := by
+  simp [Dim.add, ha, hb]
+theorem dim_sub_length {a b : Dim} (ha : a.length = ndims) (hb : b.length = ndims) : (Dim.sub a b).length = ndims := by
+  simp [Dim.sub, ha, hb]
+theorem dim_smul_length {a : Dim} (k : Rat) (ha : a.length = ndims) : (Dim.smul k a).length = ndims := by
+  simp [Dim.smul, ha]
+
+theorem eval_wf : ∀ (e : UExpr), WF e → Sym.NF e.eval.sym ∧ e.eval.dim.length = ndims
+  | .atom _, h => h
+  | .mul a b, h => by
+    obtain ⟨ha1, ha2⟩ := eval_wf a h.1
+    obtain ⟨hb1, hb2⟩ := eval_wf b h.2
+    exact ⟨Sym.mul_nf _ ha1, dim_add_length ha2 hb2⟩
+  | .div a b, h => by
+    obtain ⟨ha1, ha2⟩ := eval_wf a h.1
+    obtain ⟨hb1, hb2⟩ := eval_wf b h.2
+    exact ⟨Sym.mul_nf _ ha1, dim_sub_length ha2 hb2⟩
+  | .pow a k, h => by
+    obtain ⟨ha1, ha2⟩ := eval_wf a h
+    exact ⟨Sym.smul_nf _ ha1, dim_smul_length _ ha2⟩
+
+theorem dim_add_comm (a b : Dim) : Dim.add a b = Dim.add b a := by
+  unfold Dim.add
+  rw [List.zipWith_comm]
+  congr 1; funext x y; exact add_comm y x
+
+theorem dim_add_assoc (a b c : Dim) : Dim.add (Dim.add a b) c = Dim.add a (Dim.add b c) := by
+  unfold Dim.add
+  induction a generalizing b c with
+  | nil => simp
+  | cons x xs ih =>
+    cases b with
+    | nil => simp
+    | cons y ys =>
+      cases c with
+      | nil => simp
+      | cons z zs => simp [ih, add_assoc]
+
+theorem dim_sub_eq (a b : Dim) : Dim.sub a b = Dim.add a (Dim.smul (-1) b) := by
+  unfold Dim.sub Dim.add Dim.smul
+  induction a generalizing b with
+  | nil => simp
+  | cons x xs ih =>
+    cases b with
+    | nil => simp
+    | cons y ys => simp [ih]; ring
+
+theorem dim_smul_add (k : Rat) (a b : Dim) : Dim.smul k (Dim.add a b) = Dim.add (Dim.smul k a) (Dim.smul k b) := by
+  unfold Dim.add Dim.smul
+  induction a generalizing b with
+  | nil => simp
+  | cons x xs ih =>
+    cases b with
+    | nil => simp
+    | cons y ys => simp [ih]; ring
+
+/-- **C08 (spellings)**: reordering the factors of a product gives the same unit -/
+theorem C08_spelling_mul_comm (a b : UExpr) (ha : WF a) (hb : WF b) :
+    (UExpr.mul a b).eval = (UExpr.mul b a).eval := by
+  obtain ⟨ha1, _⟩ := eval_wf a ha
+  obtain ⟨hb1, _⟩ := eval_wf b hb
+  simp only [UExpr.eval, U.mul]
+  rw [Sym.mul_comm ha1 hb1, dim_add_comm a.eval.dim, mul_comm a.eval.factor]
+
+/-- regrouping a product gives the same unit -/
+theorem C08_spelling_mul_assoc (a b c : UExpr) (ha : WF a) (hb : WF b) (hc : WF c) :
+    (UExpr.mul (UExpr.mul a b) c).eval = (UExpr.mul a (UExpr.mul b c)).eval := by
+  obtain ⟨ha1, _⟩ := eval_wf a ha
+  obtain ⟨hb1, _⟩ := eval_wf b hb
+  obtain ⟨hc1, _⟩ := eval_wf c hc
+  simp only [UExpr.eval, U.mul]
+  rw [Sym.mul_assoc ha1 hb1 hc1, dim_add_assoc, mul_assoc]
+
+/-- `a / b` and `a * b ** -1` are the same unit -/
+theorem C08_spelling_div_as_pow (a b : UExpr) :
+    (UExpr.div a b).eval = (UExpr.mul a (UExpr.pow b (-1))).eval := by
+  simp only [UExpr.eval, U.div, U.mul, U.powInt]
+  rw [dim_sub_eq]
+  have : a.eval.factor / b.eval.factor = a.eval.factor * b.eval.factor ^ (-1 : Int) := by
+    rw [zpow_neg_one, div_eq_mul_inv]
+  rw [this]
+  norm_num
+
+/-- `(a * b) ** k` and `a ** k * b ** k` are the same unit -/
+theorem C08_spelling_pow_mul (a b : UExpr) (k : Int) (ha : WF a) (hb : WF b) :
+    (UExpr.pow (UExpr.mul a b) k).eval = (UExpr.mul (UExpr.pow a k) (UExpr.pow b k)).eval := by
+  obtain ⟨ha1, _⟩ := eval_wf a ha
+  obtain ⟨hb1, _⟩ := eval_wf b hb
+  simp only [UExpr.eval, U.mul, U.powInt]
+  rw [Sym.smul_mul _ ha1 hb1, dim_smul_add, mul_zpow]
+
+/-- the premises are satisfiable: `m * s` with pint's containers -/
+example : WF (.mul (.atom ⟨1, [1,0,0,0,0,0,0,0], [("meter", 1)]⟩) (.atom ⟨1, [0,0,1,0,0,0,0,0], [("second", 1)]⟩)) := by
+  refine ⟨⟨⟨by norm_num, by simp, trivial⟩, by decide⟩, ⟨⟨by norm_num, by simp, trivial⟩, by decide⟩⟩
+
+end Spelling
 
 end Osyris.C08
